@@ -262,4 +262,136 @@ example : (((Track.new).setShuffle 2).addNote 0 24).getEvents ++ ((((Track.new).
     = [{ type := 2, param := 60, on := 26, off := 0 }, { type := 2, param := 60, on := 26, off := 0 }, { type := 2, param := 60, on := 22, off := 0 }] := by
   decide +kernel
 
+/-- the echo macro: with delay `k+1`, the note written `k+1` notes/rests ago remembered as `note ≠ 0`
+and volume change `v ≠ 0`, `add_echo` records `VOL_REL −v`, that NOTE with the articulated
+duration, `VOL_REL +v`; and `add_note` remembers the pitch it recorded at the front of the buffer -/
+theorem C05_echo_replays (t : Track) (d : UInt16) (k : Nat) (note : UInt16)
+    (hdelay : t.echoDelay.toNat = k + 1) (hbuf : t.echoBuffer[k]? = some note) (hn : note ≠ 0) (hv : t.echoVolume ≠ 0) :
+    (t.addEcho d).revEvents =
+      { type := ev_VOL_REL, param := wrapS16 t.echoVolume, on := 0, off := 0, ref := t.reference } ::
+      { type := ev_NOTE, param := wrapS16 note.toNat, on := t.onTime (t.effDur d), off := t.offTime (t.effDur d), ref := t.reference } ::
+      { type := ev_VOL_REL, param := wrapS16 (-t.echoVolume), on := 0, off := 0, ref := t.reference } :: t.revEvents ∧
+    ∀ n dn, (t.addNote n dn).echoBuffer.head? = some (UInt16.ofNat (wrapU16 (t.notePitch n))) := by
+  constructor
+  · have hd0 : ¬ (t.echoDelay == 0) = true := by
+      intro h
+      have : t.echoDelay = 0 := by simpa using h
+      rw [this] at hdelay; simp at hdelay
+    have hlen : ¬ t.echoBuffer.length < t.echoDelay.toNat := by
+      have := (List.getElem?_eq_some_iff.mp hbuf).1
+      omega
+    have hv' : (t.echoVolume != 0) = true := by simpa using hv
+    have hn' : ¬ (note == 0) = true := by simpa using hn
+    have pre_eq : ∀ u : Track, (u.echoVolume != 0) = true → echoPre u = u.addEvent ev_VOL_REL (-u.echoVolume) 0 0 := by
+      intro u h; unfold echoPre; simp only [h, if_true]
+    have post_eq : ∀ u : Track, (u.echoVolume != 0) = true → echoPost u = u.addEvent ev_VOL_REL u.echoVolume 0 0 := by
+      intro u h; unfold echoPost; simp only [h, if_true]
+    have mid_eq : ∀ u : Track, u.echoDelay.toNat = k + 1 → u.echoBuffer[k]? = some note → ¬ (u.echoDelay == 0) = true →
+        echoMid u (t.effDur d) =
+          ({ u with lastNotePos := some u.revEvents.length } : Track).addEvent ev_NOTE note.toNat (u.onTime (t.effDur d)) (u.offTime (t.effDur d)) := by
+      intro u h1 h2 h3
+      unfold echoMid
+      have hl2 : ¬ u.echoBuffer.length < k + 1 := by
+        have := (List.getElem?_eq_some_iff.mp h2).1
+        omega
+      have hd1 : ¬ ((u.echoDelay == 0) = true ∨ u.echoBuffer.length < k + 1) := fun h => h.elim h3 hl2
+      simp only [Bool.or_eq_true, decide_eq_true_eq, h1, hd1, if_false, Nat.add_sub_cancel, h2, Option.getD_some, hn', Bool.false_eq_true]
+      rfl
+    rw [addEcho_eq, pre_eq t.flipShuffle hv', mid_eq (t.flipShuffle.addEvent ev_VOL_REL (-t.flipShuffle.echoVolume) 0 0) hdelay hbuf hd0]
+    unfold echoPost
+    rw [if_pos]
+    · rfl
+    · exact hv'
+  · intro n dn
+    rw [addNote_echoBuffer]
+    simp [trackEchoBufferSize]
+
+example : (((((Track.new).setEcho 2 3).addNote 0 24).addNote 2 24).addEcho 24).getEvents.drop 2 =
+    [{ type := 14, param := -3, on := 0, off := 0 }, { type := 2, param := 60, on := 24, off := 0 }, { type := 14, param := 3, on := 0, off := 0 }] := by
+  decide +kernel
+
+/-! ## pitch -/
+
+/-- masks the scale name `key` selects in the regenerated key-signature table -/
+def scaleMasks (key : List Nat) : Option (Nat × Nat) :=
+  (keySignatureTable.find? (fun r => strBytes r.2.2.1 == key || strBytes r.2.2.2 == key)).map fun r => (r.1, r.2.1)
+
+/-- the 30 scale names of mml_ref.md -/
+def scaleNames : List String :=
+  ["C", "G", "D", "A", "E", "B", "F+", "C+", "F", "B-", "E-", "A-", "D-", "G-", "C-",
+   "a", "e", "b", "f+", "c+", "g+", "d+", "a+", "d", "g", "c", "f", "b-", "e-", "a-"]
+
+/-- the regenerated 15-row table is the circle of fifths: each row's major and minor name lie
+at the same position `k`, and its masks sharpen exactly the first `k` of F C G D A E B
+(flatten the first `−k` of B E A D G C F); all 30 documented names select a row -/
+theorem C05_keysig_table_correct :
+    (keySignatureTable.all fun r =>
+      match MmlMeaning.fifths r.2.2.1, MmlMeaning.fifths r.2.2.2 with
+      | some k, some k' =>
+        k == k' && (List.range 8).all fun l =>
+          (Track.testBit r.1 l == (MmlMeaning.scaleSig k l == 1)) && (Track.testBit r.2.1 l == (MmlMeaning.scaleSig k l == -1))
+      | _, _ => false) = true ∧
+    (scaleNames.all fun n =>
+      match scaleMasks (strBytes n), MmlMeaning.fifths n with
+      | some (s, f), some k =>
+        (List.range 8).all fun l => (Track.testBit s l == (MmlMeaning.scaleSig k l == 1)) && (Track.testBit f l == (MmlMeaning.scaleSig k l == -1))
+      | _, _ => false) = true := by
+  constructor <;> decide +kernel
+
+/-- pitch of a note: `add_note` stores `note + 12·octave` (normal mode) or `note + drum base`
+(drum mode), narrowed to 16 bits; the letter values are those of the C major scale with `h = b`;
+`_{name}` installs the table's masks for that name and nothing else, and the key signature read
+back for a letter is +1 / −1 / 0 according to the masks -/
+theorem C05_pitch_rule (t : Track) (note : Int) (d : UInt16) :
+    (t.addNote note d).revEvents.head?.map (·.param) =
+      some (wrapS16 (if t.drumMode = 0 then note + t.octave * 12 else note + t.drumMode.toNat)) ∧
+    (∀ l, l < 8 → noteValues[l]? = some (MmlMeaning.letterValue l)) ∧
+    (∀ key : List Nat, isAlpha (match key with | [] => 0 | k :: _ => schar k) = true →
+      match scaleMasks key with
+      | some (s, f) => ∃ u, t.setKeySignature key = .ok u ∧ u = { t with sharpMask := s, flatMask := f }
+      | none => ∃ u, t.setKeySignature key = .invalidArgument u ∧ u = t) ∧
+    (∀ l : Nat, l < 8 →
+      ∃ v, t.getKeySignature (97 + l) = .ok v ∧
+        v = if Track.testBit t.sharpMask l then 1 else if Track.testBit t.flatMask l then -1 else 0) := by
+  refine ⟨?_, by decide, ?_, ?_⟩
+  · rw [addNote_revEvents]
+    simp only [List.head?_cons, Option.map_some, noteEvent, Track.notePitch, Track.inDrumMode]
+    by_cases h : t.drumMode = 0 <;> simp [h]
+  · intro key hk
+    have hset : t.setKeySignature key =
+        match keySignatureTable.find? (fun r => strBytes r.2.2.1 == key || strBytes r.2.2.2 == key) with
+        | some r => .ok { t with sharpMask := r.1, flatMask := r.2.1 }
+        | none => .invalidArgument t := by
+      unfold Track.setKeySignature
+      simp only []
+      rw [if_pos]
+      · generalize keySignatureTable.find? (fun r => strBytes r.2.2.1 == key || strBytes r.2.2.2 == key) = o
+        cases o <;> rfl
+      · exact hk
+    rw [hset]
+    unfold scaleMasks
+    cases keySignatureTable.find? (fun r => strBytes r.2.2.1 == key || strBytes r.2.2.2 == key) with
+    | none => exact ⟨t, rfl, rfl⟩
+    | some r => exact ⟨_, rfl, rfl⟩
+  · intro l hl
+    have hidx : Track.noteIndex (97 + (l : Int)) = l := by
+      unfold Track.noteIndex toLower isUpper wrapS8
+      have : ¬ ((65 : Int) ≤ 97 + l ∧ 97 + (l : Int) ≤ 90) := by omega
+      simp only [Bool.and_eq_true, decide_eq_true_eq, this, if_false]
+      omega
+    unfold Track.getKeySignature
+    simp only [hidx]
+    have h1 : ¬ ((l : Int) > 7) := by omega
+    have h2 : ¬ ((l : Int) < 0) := by omega
+    simp only [h1, h2, if_false, Int.toNat_natCast]
+    split
+    · exact ⟨1, rfl, rfl⟩
+    · split
+      · exact ⟨-1, rfl, rfl⟩
+      · exact ⟨0, rfl, rfl⟩
+
+example : (((Track.new).setOctave 3).addNote 2 24).getEvents = [{ type := 2, param := 38, on := 24, off := 0 }] ∧
+    (((Track.new).setDrumMode 30).addNote 2 24).getEvents.drop 1 = [{ type := 2, param := 32, on := 24, off := 0 }] := by
+  decide +kernel
+
 end Ctrmml.C05
